@@ -142,6 +142,9 @@ func (sd *duSide) respond(sc *duSc, key string) func(p peer.ID, n int, req *pb.M
 		if dp.Req == "fail" {
 			return verifnet.Reply{Fail: true, Latency: lat}
 		}
+		if dp.Req == "silent" {
+			return verifnet.Reply{Silent: true}
+		}
 		resp := &pb.Message{Type: req.Type, Key: req.Key}
 		mk := func(j int) *pb.Message_Peer {
 			q := sd.peers[j%len(sd.peers)]
